@@ -126,6 +126,15 @@ def run(ctx):
     tvals = [v for d in fdicts for k, v in zip(d.keys, d.values) if isinstance(k, ast.Constant) and k.value == "type"]
     tvals += [n.value for n in ast.walk(dts) if isinstance(n, ast.Assign) and isinstance(n.targets[0], ast.Subscript) and isinstance(n.targets[0].slice, ast.Constant)
               and n.targets[0].slice.value == "type" and norm(n.targets[0].value) in fnames]
+    # a binding through a local (avro_types = [...] in both branches, then {"type": avro_types}): every definition of the local counts
+    resolved = []
+    for tv in tvals:
+        if isinstance(tv, ast.Name):
+            ds = [st.value for st in walk_no_nested(dts) if isinstance(st, ast.Assign) and len(st.targets) == 1 and norm(st.targets[0]) == tv.id]
+            resolved += ds or [tv]
+        else:
+            resolved.append(tv)
+    tvals = resolved
     ctx.floor("R19.2", "field-schema type bindings in descriptor_to_schema", len(tvals), 2)
 
     def _nullable(u):
@@ -150,7 +159,14 @@ def run(ctx):
 
     # ------------------------------------------------------------------ R19.3
     ctx.rule("R19.3", "doc = json.dumps(desc._pack()); reader: doc.startswith('[\"') and endswith(']]]') -> name, fields = json.loads(doc) -> RecordDescriptor(name, fields); fallback skips '_' fields")
+    from ..core import dict_bindings
+
     doc = [v for n in ast.walk(dts) if isinstance(n, ast.Dict) for k, v in zip(n.keys, n.values) if isinstance(k, ast.Constant) and k.value == "doc"]
+    if not doc:
+        for rt0 in [x for x in walk_no_nested(dts) if isinstance(x, ast.Return) and x.value is not None]:
+            _, binds, _ = dict_bindings(dts, rt0.value)
+            if "doc" in binds:
+                doc.append(binds["doc"])
     ctx.check(len(doc) == 1 and norm(expand_aliases(doc[0], dal)) == f"json.dumps({dparam}._pack())", "R19.3", "descriptor_to_schema:doc", "the descriptor is not embedded as json.dumps(desc._pack())", dts,
               "doc = json.dumps(desc._pack())", key="R19.3:descriptor_to_schema:doc")
     dp = prog.func("flow.record.base.RecordDescriptor._pack")
@@ -182,9 +198,15 @@ def run(ctx):
     # fallback: a field whose name starts with "_" is never added
     apps = [c for c in calls_in(std) if isinstance(c.func, ast.Attribute) and c.func.attr == "append" and norm(c.func.value) == fl and c.args and isinstance(c.args[0], (ast.List, ast.Tuple))
             and len(c.args[0].elts) == 2]
-    ctx.floor("R19.3", "fallback field append sites", len(apps), 1)
-    for ap in apps:
-        name_e = expand_aliases(ap.args[0].elts[1], sal)
+    # the same thing written as a comprehension: fields = [[type, name] for f in ... if ...]
+    sites = [(ap, ap.args[0]) for ap in apps]
+    for st in walk_no_nested(std):
+        if isinstance(st, ast.Assign) and len(st.targets) == 1 and norm(st.targets[0]) == fl and isinstance(st.value, (ast.ListComp, ast.GeneratorExp)) \
+                and isinstance(st.value.elt, (ast.List, ast.Tuple)) and len(st.value.elt.elts) == 2:
+            sites.append((st.value.elt, st.value.elt))
+    ctx.floor("R19.3", "fallback field append sites", len(sites), 1)
+    for ap, pair in sites:
+        name_e = expand_aliases(pair.elts[1], sal)
         node = scfg.node_of(ap)
         prem = [(expand_aliases(e0, sal), p0) for e0, p0 in logic.facts_as_premises(scfg.facts_at(node.id))] + [(expand_aliases(e0, sal), p0) for e0, p0 in expr_conditions(ap)]
         goal = ast.UnaryOp(op=ast.Not(), operand=ast.Call(func=ast.Attribute(value=name_e, attr="startswith", ctx=ast.Load()), args=[ast.Constant(value="_")], keywords=[]))
